@@ -156,6 +156,8 @@ pub fn gen_map(rng: &mut Rng, opts: &GenOpts) -> GenMap {
 
     for i in 0..n {
         let gap = match shape {
+            // beyond 4096 strain sections (27 min) now and then
+            Shape::Sparse if rng.chance(1, 12) => 1_700_000.0 + rng.below(2_500_000) as f64,
             Shape::Sparse if rng.chance(1, 3) => 30_000.0 + rng.below(1_170_000) as f64,
             Shape::Ties if rng.chance(1, 3) => 0.0,
             Shape::Mixed if rng.chance(1, 15) => 5_000.0 + rng.below(60_000) as f64,
@@ -210,10 +212,12 @@ pub fn gen_map(rng: &mut Rng, opts: &GenOpts) -> GenMap {
                     "L" => 1 + rng.below(2) as usize,
                     _ => 1 + rng.below(3) as usize,
                 };
+                // degenerate paths: every control point on the head, zero or missing length
+                let degenerate = rng.chance(1, 15);
                 let mut pts = String::new();
                 for _ in 0..npts {
-                    let dx = rng.range(-150, 150) as i32;
-                    let dy = rng.range(-120, 120) as i32;
+                    let dx = if degenerate { 0 } else { rng.range(-150, 150) as i32 };
+                    let dy = if degenerate { 0 } else { rng.range(-120, 120) as i32 };
                     write!(pts, "|{}:{}", x + dx, y + dy).unwrap();
                 }
                 let repeats = if opts.bounded_sliders {
@@ -226,7 +230,9 @@ pub fn gen_map(rng: &mut Rng, opts: &GenOpts) -> GenMap {
                 } else {
                     one_decimal(rng, 0.0, 20_000.0)
                 };
-                let len_str = if rng.chance(1, 25) {
+                let len_str = if degenerate {
+                    (*rng.pick(&[",0", "", ",0.0", ",0"])).to_string()
+                } else if rng.chance(1, 25) {
                     String::new() // missing length: use path length
                 } else {
                     format!(",{len}")
